@@ -149,7 +149,7 @@ inline std::vector<Program> readPrograms(std::istream &in) {
 }
 
 struct Built {
-	std::map<std::string, Val> vars;
+	std::map<std::string, std::shared_ptr<Val>> vars;
 	std::vector<std::string> inNames, outNames;
 };
 
@@ -161,7 +161,7 @@ public:
 	std::vector<std::unique_ptr<GroupScope>> groupStack;
 	bool dropAll = false;
 
-	Val &get(const std::string &n) { auto it = b.vars.find(n); if (it == b.vars.end()) throw std::runtime_error("unknown var " + n); return it->second; }
+	Val &get(const std::string &n) { auto it = b.vars.find(n); if (it == b.vars.end()) throw std::runtime_error("unknown var " + n); return *it->second; }
 	UInt asU(const std::string &n) { Val &v = get(n); if (v.isBit()) return zext(UInt(cat(v.b())), 1_b); return v.u(); }
 	Bit asB(const std::string &n) { Val &v = get(n); if (v.isBit()) return v.b(); return v.u().lsb(); }
 
@@ -213,8 +213,9 @@ public:
 
 	void stmt(const std::vector<std::string> &t) {
 		const std::string &op = t[0];
-		auto setU = [&](const std::string &n, UInt v) { Val x; x.v = std::move(v); b.vars[n] = std::move(x); };
-		auto setB = [&](const std::string &n, Bit v) { Val x; x.v = std::move(v); b.vars[n] = std::move(x); };
+		// copy-construct in place (== `UInt name = expr;` in user code); never move a signal object: moving has its own semantics
+		auto setU = [&](const std::string &n, const UInt &v) { auto p = std::make_shared<Val>(); p->v.emplace<UInt>(v); b.vars[n] = p; };
+		auto setB = [&](const std::string &n, const Bit &v) { auto p = std::make_shared<Val>(); p->v.emplace<Bit>(v); b.vars[n] = p; };
 		if (op == "in") { UInt x = pinIn(bw(t[2])).setName(t[1]); setU(t[1], x); b.inNames.push_back(t[1]); }
 		else if (op == "inb") { Bit x = pinIn().setName(t[1]); setB(t[1], x); b.inNames.push_back(t[1]); }
 		else if (op == "lit") {
@@ -258,6 +259,8 @@ public:
 			}
 		}
 		else if (op == "var") { Val &a = get(t[2]); if (a.isBit()) { Bit x = a.b(); setB(t[1], x); } else { UInt x = a.u(); setU(t[1], x); } }
+		else if (op == "loopvar") { auto p = std::make_shared<Val>(); p->v.emplace<UInt>(bw(t[2])); b.vars[t[1]] = p; }
+		else if (op == "close") { Val &d = get(t[1]); d.u() = asU(t[2]); }
 		else if (op == "set") { Val &d = get(t[1]); if (d.isBit()) d.b() = asB(t[2]); else d.u() = asU(t[2]); }
 		else if (op == "setslice") { Val &d = get(t[1]); d.u()(std::stoull(t[2]), bw(t[3])) = asU(t[4]); }
 		else if (op == "setbit") { Val &d = get(t[1]); d.u()[(size_t)std::stoull(t[2])] = asB(t[3]); }
